@@ -372,6 +372,19 @@ func runWmHeap(c *Ctx, r *RuleRun) {
 			}
 		})
 	}
+	// pops in a helper of the consumer (advance) are held to the same rule, inside the helper
+	for _, g := range localFns(p, f)[1:] {
+		eachInstr(g, func(ins ssa.Instruction) {
+			if pop := isHeapCall(ins, "Pop"); pop != nil {
+				nPop++
+				q := PathQuery{P: p, Fn: g, Starts: []ssa.Instruction{pop}, Avoid: isDelete, Target: func(i ssa.Instruction) bool {
+					return isReturn(i) || isHeapCall(i, "Pop") != nil
+				}}
+				r.Check(q.FindPath() == nil, fn, "pop deletes the pending entry", p.Pos(instrPos(pop)), "delete(pending, ts) follows heap.Pop on every path",
+					"an index is popped from the heap but its pending entry stays: a later Begin of the same index (read timestamps repeat) finds the stale entry, is not pushed again and is never tracked - the watermark passes an open transaction")
+			}
+		})
+	}
 	eachInstr(f, func(ins ssa.Instruction) {
 		if pop := isHeapCall(ins, "Pop"); pop != nil {
 			nPop++
@@ -1054,9 +1067,16 @@ func runTableWhole(c *Ctx, r *RuleRun) {
 			for _, dc := range callsTo(p, f, decode) {
 				// the byte slice decoded: its length comes from Index.DataBlock.Length
 				arg := dc.Call.Args[1]
+				var lenSrc ssa.Value
 				if ms, ok := arg.(*ssa.MakeSlice); ok {
+					lenSrc = ms.Len
+				} else if hc, ok := arg.(*ssa.Call); ok && hc.Call.StaticCallee() != nil && hc.Call.StaticCallee().Pkg == f.Pkg {
+					// a helper that reads one section: what it is handed decides how much is read
+					lenSrc = hc
+				}
+				if lenSrc != nil {
 					n++
-					ok2 := p.dependsOn(ms.Len, isWhole) && !p.dependsOn(ms.Len, isSingle)
+					ok2 := p.dependsOn(lenSrc, isWhole) && !p.dependsOn(lenSrc, isSingle)
 					r.Check(ok2, p.FnName(f), "decodes the whole table", p.Pos(instrPos(dc)), "length = Index.DataBlock.Length",
 						"recovery decodes only part of the table's data blocks: the filter and the maximum version are rebuilt from a fraction of the entries")
 				}
@@ -1077,7 +1097,8 @@ func runKeySplit(c *Ctx, r *RuleRun) {
 	}
 	splitters := func(f *ssa.Function) []string {
 		var out []string
-		eachInstr(f, func(ins ssa.Instruction) {
+		// (the separator search may live in a helper shared by ParseKey and ParseTs)
+		eachInstrOf(localFns(p, f), func(ins ssa.Instruction) {
 			call, ok := ins.(*ssa.Call)
 			if !ok {
 				return
@@ -1510,7 +1531,7 @@ func runRecoverFilter(c *Ctx, r *RuleRun) {
 		return false
 	}
 	n := 0
-	eachInstr(rec, func(ins ssa.Instruction) {
+	eachInstrOf(localFns(p, rec), func(ins ssa.Instruction) {
 		call, ok := ins.(*ssa.Call)
 		if !ok {
 			return
